@@ -919,6 +919,25 @@ func (c *Ctx) candidate16Host(caseIdx int, spec *HostSpec, k int, v *c16Viol, re
 	if fails(calls[len(calls)-1:]) != nil {
 		calls = calls[len(calls)-1:]
 	} else {
+		// most history defects need one earlier call: try every two-call
+		// history [earlier, last] (latest first), then halves, then single drops
+		last := calls[len(calls)-1]
+		for j, tries := len(calls)-2, 0; j >= 0 && tries < 40; j, tries = j-1, tries+1 {
+			if cand := []HostCall{calls[j], last}; fails(cand) != nil {
+				calls = cand
+				break
+			}
+		}
+		for n := (len(calls) - 1) / 2; n >= 2 && len(calls) > 2; n /= 2 {
+			for st := 0; st+n <= len(calls)-1; {
+				cand := append(append([]HostCall(nil), calls[:st]...), calls[st+n:]...)
+				if fails(cand) != nil {
+					calls = cand
+				} else {
+					st += n
+				}
+			}
+		}
 		for i := 0; i < len(calls)-1 && len(calls) > 1; {
 			cand := append(append([]HostCall(nil), calls[:i]...), calls[i+1:]...)
 			if fails(cand) != nil {
